@@ -348,6 +348,11 @@ class Models(Structural):
         import ast as _ast
         return self.lib.binop(_ast.Pow, a, b)
 
+    @reg('numpy.errstate')
+    def np_errstate(self, **kw):
+        # context manager that only changes how floating-point WARNINGS are reported; values are unaffected (used in `with`, no `as`)
+        return None
+
     @reg('numpy.isscalar')
     def np_isscalar(self, x):
         return T.is_scalar(x) and x is not None
